@@ -48,7 +48,28 @@ def units():
             h.append("		%s (v, 1) ; { uint64_t u = (uint64_t) o0, r = 0 ; for (int k = 0 ; k < 8 ; k++) r |= ((u >> (8 * k)) & 0xff) << (8 * (7 - k)) ; __CPROVER_assert ((uint64_t) v [0] == r, \"64 bit swap reverses the eight bytes\") ; } /*@C20.byte_swap_64_definition*/" % A)
         h.append("		} ;")
     h += ["	CANARY () ;", "}", ""]
-    return [{"name": "pairs.pcm_and_byte_order", "props": ["C01", "C20"], "harness_text": "\n".join(h), "template": "units/gen_pairs.py", "entry": "h_pairs",
+    aiff_h = """#include "env_pre.h"
+#define psf_log_printf(...)		verif_nolog ()
+#include "aiff.c"
+void verif_nolog (void) { }
+#include "ghost.h"
+
+/* C04: the AIFF COMM chunk stores the sample rate as an 80 bit extended float.  The writer's encoder followed by the
+** reader's decoder is the identity for every rate the pair supports (1 .. 2^30 - 1). */
+void h_aiff_rate (void)
+{	INPUT (uint32_t, rate) ;
+	uint8_t bytes [10] = { 0 } ;
+	__CPROVER_assume (rate >= 1 && rate < 0x40000000u) ;
+	uint2tenbytefloat (rate, bytes) ;
+	__CPROVER_assert (tenbytefloat2int (bytes) == (int) rate, "80 bit float sample rate: decode (encode (rate)) == rate") ; /*@C04.aiff_sample_rate_field_round_trips*/
+	CANARY () ;
+}
+"""
+    extra = [{"name": "pairs.aiff_sample_rate", "props": ["C04"], "harness_text": aiff_h, "template": "units/gen_pairs.py", "entry": "h_aiff_rate", "dfcc": False,
+              "function": "aiff.c:uint2tenbytefloat, tenbytefloat2int", "cbmc_flags": ["--unwind", "34", "--object-bits", "9"], "timeout": 600,
+              "self_replay": True, "inputs": ["rate"], "replay_link": "all", "replay_exclude": ["aiff.c"],
+              "kind": "proof(full domain 1 .. 2^30 - 1; the normalisation loop unwound completely)", "trusted": []}]
+    return extra + [{"name": "pairs.pcm_and_byte_order", "props": ["C01", "C20"], "harness_text": "\n".join(h), "template": "units/gen_pairs.py", "entry": "h_pairs",
              "dfcc": False, "function": "pcm.c:" + ", ".join(p[1] + "/" + p[2] for p in PAIRS) + "; sfendian.h:endswap_*",
              "cbmc_flags": ["--unwind", "10"], "timeout": 600, "kind": "proof(full value domain; two-element arrays)",
              "trusted": ["composition with the array-level units (C02 kernel units, C05 implementation units) is by contract, not re-proved here"]}]
